@@ -384,6 +384,41 @@ func runEdits(h *hz.H, types []protoreflect.MessageDescriptor) {
 				}
 			}
 		}
+		// adversarial lengths INSIDE a map entry / packed run / sub-message with the enclosing length kept consistent (a plain
+		// substitution makes the outer length wrong and is rejected before the inner one is looked at)
+		for _, r := range enum.RecordAlphabet(md, false) {
+			_, wt, tl := protowire.ConsumeTag(r.Bytes)
+			if wt != protowire.BytesType || tl < 0 {
+				continue
+			}
+			body, bl := protowire.ConsumeBytes(r.Bytes[tl:])
+			if bl < 0 {
+				continue
+			}
+			off := 0
+			for off < len(body) {
+				_, iwt, itl := protowire.ConsumeTag(body[off:])
+				if itl < 0 {
+					break
+				}
+				ivl := protowire.ConsumeFieldValue(1, iwt, body[off+itl:])
+				if ivl < 0 {
+					break
+				}
+				if iwt == protowire.BytesType {
+					_, ll := protowire.ConsumeVarint(body[off+itl:])
+					for _, v := range adversarialVarints() {
+						nb := append(append(append([]byte(nil), body[:off+itl]...), v...), body[off+itl+ll:]...)
+						t := protowire.AppendBytes(append([]byte(nil), r.Bytes[:tl]...), nb)
+						if !seen[string(t)] && len(t) <= 200 {
+							seen[string(t)] = true
+							seeds = append(seeds, seed{md, t})
+						}
+					}
+				}
+				off += itl + ivl
+			}
+		}
 		names = append(names, fmt.Sprintf("%s: %d seed encodings", md.FullName(), len(seeds)-n0))
 	}
 	h.Rep.Bounds["seed_encodings"] = names
